@@ -100,6 +100,20 @@ Theorem C01_pmtiles_writer_lookup :
 Proof. exact (as_directory_lookup pm_arith_variant). Qed.
 Print Assumptions C01_pmtiles_writer_lookup.
 
+(* ... and with the directories stored through any lawful internal compression (the writer uses
+   gzip): leaves are cut, compressed, placed and pointed at by their compressed lengths; the reader
+   decompresses each leaf it is pointed to *)
+Theorem C01_pmtiles_writer_lookup_compressed :
+  forall (enc : list N -> list N) (dec : list N -> option (list N)),
+    (forall b, dec (enc b) = Some b) -> (forall l, enc (serialize l) <> []) ->
+  forall k es extra, (0 < k)%nat -> runs_ok es -> Forall entry_ok es ->
+    Forall (fun e => (0 < e_len e)%N /\ (0 < e_run e)%N) es -> (N.of_nat (length es) <= 10000000000)%N ->
+    let d := build_roots_leaves_enc enc k es in
+    forall e t, In e es -> (e_id e <= t < e_id e + e_run e)%N ->
+    pm_lookup pm_arith_variant (2 + extra) (read_leaf_dec dec pm_arith_variant (d_leaves_bytes d)) (d_root d) t = Ok (Some e).
+Proof. intros enc dec H1 H2 k es extra. exact (writer_tree_lookup_enc enc dec H1 H2 pm_arith_variant k es extra). Qed.
+Print Assumptions C01_pmtiles_writer_lookup_compressed.
+
 (* versatiles: the block definition the writer derives from a cell of the 256-grid
    (BlockDefinition::new) is well formed, so its 33 bytes read back to the same block coordinate,
    coverage and byte ranges (C16_block_definition_bytes) *)
